@@ -514,13 +514,39 @@ func (iv *c11Inv) install(bc *boundsCtx, fn *ssa.Function) {
 		if fb, b2 := loadedField(base); fb != nil && fb.Name() == "body" {
 			base = b2
 		}
-		isChild := derives(base, func(y ssa.Value) bool {
+		isSplit := func(y ssa.Value) bool {
 			cl, ok := y.(*ssa.Call)
 			if !ok {
 				return false
 			}
 			g := calleeFn(cl.Common())
 			return g != nil && g.Name() == "Split" && wrapperHeldField(cl.Call.Args[0].Type()) != nil
+		}
+		isChild := derives(base, func(y ssa.Value) bool {
+			if isSplit(y) {
+				return true
+			}
+			// a slice-of-requests parameter that every caller fills with a Split() result
+			prm, ok := y.(*ssa.Parameter)
+			if !ok {
+				return false
+			}
+			sl, ok := prm.Type().Underlying().(*types.Slice)
+			if !ok || !isReqType(sl.Elem()) {
+				return false
+			}
+			pf := prm.Parent()
+			idx := paramIndex(pf, prm)
+			edges := p.callersOf(pf)
+			if len(edges) == 0 {
+				return false
+			}
+			for _, ed := range edges {
+				if idx >= len(ed.Site.Common().Args) || !derives(ed.Site.Common().Args[idx], isSplit) {
+					return false
+				}
+			}
+			return true
 		})
 		if isChild {
 			return 2, true
